@@ -81,14 +81,17 @@ def parse(lexer):
             f"Expected end of input but got '{lexer.next()}'",
             lexer.getPos(),
         )
+    # a final `return e` is just e; a bare final `return;` is NULL
     if isinstance(result, NodeReturn):
-        result = result.expression
+        result = result.expression or NodeNull(result.pos)
     elif isinstance(result, NodeBlock):
         expressions = result.expressions
         if len(expressions) > 0:
             lastexpr = expressions[-1]
             if isinstance(lastexpr, NodeReturn):
-                expressions[-1] = lastexpr.expression
+                expressions[-1] = (
+                    lastexpr.expression or NodeNull(lastexpr.pos)
+                )
     return result
 
 
